@@ -82,6 +82,13 @@ def gen(ctx):
                     if func == 'archive' and occ != 'file':
                         continue
                     C.append(dict(func=func, occupant=occ, overwrite=ow, foreign=foreign, aspath=r.random() < 0.4))
+    # the destination is a dangling symbolic link: it exists, and nothing may be written through it
+    for func in ('archive', 'asarray', 'asraggedarray', 'copy'):
+        C.append(dict(func=func, occupant='danglinglink', overwrite=False, foreign=[], aspath=False))
+    # a change of kind with overwrite=True: what the user keeps INSIDE the old sub-array directories survives
+    for func in ('asarray', 'create_array', 'copy'):
+        C.append(dict(func=func, occupant='RaggedArray', overwrite=True, aspath=False,
+                      foreign=[dict(kind='file', name='notes.txt', where='values'), dict(kind='dir', name='mine', where='indices')]))
     # creation calls that FAIL after the overwrite gate: foreign content must still survive
     for func in ('asraggedarray_fail_empty', 'asraggedarray_fail_atom', 'asraggedarray_fail_gen', 'asraggedarray_fail_type',
                  'asarray_fail_gen', 'asarray_fail_type'):
@@ -169,9 +176,9 @@ def run(ctx):
         ctx.seen(key, nontrivial=not case['overwrite'] or bool(case['foreign']))
         ctx.count('create:' + case['func']); ctx.count('occupant:' + case['occupant'])
         if not case['overwrite']:
-            if ob['res'][0] == 'ok' or ob['after'] != ob['before']:
+            if ob['res'][0] == 'ok' or ob['after'] != ob['before'] or (case['occupant'] == 'danglinglink' and ob.get('outside')):
                 ctx.fail('existing-path-modified-without-overwrite', key,
-                         observed=dict(res=ob['res'], unchanged=ob['after'] == ob['before']))
+                         observed=dict(res=ob['res'], unchanged=ob['after'] == ob['before'], written_elsewhere=ob.get('outside')))
         else:
             for sp in case['foreign']:
                 p = (sp['where'] + '/' if sp.get('where') else '') + sp['name']
